@@ -181,7 +181,11 @@ def run_env(variant, build_dir, hashseed="0"):
     env["PYTHONDONTWRITEBYTECODE"] = "1"
     if variant == "asan":
         env["LD_PRELOAD"] = libasan_path()
-        env["ASAN_OPTIONS"] = "detect_leaks=0:abort_on_error=0:halt_on_error=1:allocator_may_return_null=1:exitcode=77:handle_segv=1"
+        logdir = os.path.join(CACHE_DIR, "asan")
+        os.makedirs(logdir, exist_ok=True)
+        env["VSIM_ASAN_LOG"] = os.path.join(logdir, "log")
+        env["ASAN_OPTIONS"] = ("detect_leaks=0:abort_on_error=0:halt_on_error=1:allocator_may_return_null=1:exitcode=77:"
+                               "handle_segv=1:log_path=%s" % env["VSIM_ASAN_LOG"])
         env["PYTHONMALLOC"] = "malloc"
         env["LD_LIBRARY_PATH"] = shim_dir() + ":" + env.get("LD_LIBRARY_PATH", "")
     elif variant == "inst":
